@@ -9,6 +9,7 @@ MISSED=0
 for L in "${LABELS[@]}"; do
   # the check that catches the seed: its own property's, unless seeded/<label>/check names another
   ID=$(cat "seeded/$L/check" 2>/dev/null || echo "${L%%-*}")
+  if [ "$ID" = none ]; then echo "$L not addressed (accepted limit, see seeded/$L/meta.json)"; continue; fi
   R=$(tools/try_patch.sh "seeded/$L/patch.diff" "$ID" 2>&1 | tail -1 | cut -c1-260)
   echo "$L $R"
   case "$R" in *"exit=1"*) ;; *) MISSED=$((MISSED+1));; esac
